@@ -34,6 +34,33 @@ func TestWorker(t *testing.T) {
 			return RunSL(t, c, trace)
 		},
 	}
+	runners["C11"] = func(t *testing.T, seed uint64, tier string, replay json.RawMessage, trace bool) *work.RunOut {
+		var c *CodecCase
+		if replay != nil {
+			c = &CodecCase{}
+			if err := json.Unmarshal(replay, c); err != nil {
+				t.Fatal(err)
+			}
+		} else {
+			c = GenCodec(seed, tier)
+		}
+		return RunCodec(t, c, trace)
+	}
+	for _, prop := range []string{"C09", "C10"} {
+		prop := prop
+		runners[prop] = func(t *testing.T, seed uint64, tier string, replay json.RawMessage, trace bool) *work.RunOut {
+			var c *LMCase
+			if replay != nil {
+				c = &LMCase{}
+				if err := json.Unmarshal(replay, c); err != nil {
+					t.Fatal(err)
+				}
+			} else {
+				c = GenLM(seed)
+			}
+			return RunLM(t, c, prop, trace)
+		}
+	}
 	for k, v := range extraRunners {
 		runners[k] = v
 	}
